@@ -48,7 +48,7 @@ REQUIRED = ["files", "corpus:files", "table:files", "probe:isd", "cmp:chars", "c
             "feat:diacritic-pair", "feat:control", "feat:newline", "feat:space-run",
             "dfc:STL25.01", "dfc:STL30.01", "dfc:STL24.01", "dfc:STL50.01", "dfc:STL23.01",
             "cct:00", "cct:01", "cct:02", "cct:03", "cct:04", "dsc:teletext", "dsc:open",
-            "cfg:start:None", "cfg:start:TCP", "cfg:start:literal", "cfg:rows:None", "cfg:rows:MNR", "cfg:rows:int", "cmp:anchor"]
+            "cfg:start:None", "cfg:start:TCP", "cfg:start:literal", "cfg:rows:None", "cfg:rows:MNR", "cfg:rows:int", "cmp:anchor", "cmp:split-equivalence"]
 SHARD_TIMEOUT = {"quick": 900, "thorough": 5400}
 
 CORPUS_DIR = "src/test/resources/stl"
@@ -913,10 +913,61 @@ def _features(ctx, fc: FileCheck, cfg):
   return nontrivial and judged
 
 
+def merge_extension_chains(data: bytes):
+  """-> (bytes, number of chains merged): every subtitle spread over extension blocks whose concatenated text (each block cut at its
+  first 8Fh) fits one text field is rewritten as a single block (header of the last block). None if nothing can be merged."""
+  gsi, body = data[:1024], data[1024:]
+  blocks = [body[i:i + 128] for i in range(0, len(body) - len(body) % 128, 128)]
+  out, chain, merged = [], [], 0
+  for b in blocks:
+    ebn = b[3]
+    if ebn <= 0xEF:
+      if chain and (chain[0][1:3] != b[1:3]):
+        out += chain
+        chain = []
+      chain.append(b)
+      continue
+    if ebn == 0xFF and chain and chain[0][1:3] == b[1:3] and all(c[15] == b[15] for c in chain):
+      tf = b"".join(c[16:].split(b"\x8f", 1)[0] for c in chain + [b])
+      if len(tf) <= 112:
+        out.append(b[:16] + tf + b"\x8f" * (112 - len(tf)))
+        merged += 1
+        chain = []
+        continue
+    out += chain
+    chain = []
+    out.append(b)
+  out += chain
+  if not merged:
+    return None, 0
+  return gsi + b"".join(out) + body[len(blocks) * 128:], merged
+
+
+def split_equivalence(ctx, fc, data, cfg, source):
+  """'extension blocks concatenated': a subtitle reads the same whether its text is sent in one block or spread over several."""
+  from ttconv.stl import reader
+  from vt.ref import absdoc
+  one, n = merge_extension_chains(data)
+  if one is None:
+    return []
+  try:
+    a = absdoc.fingerprint(reader.to_model(io.BytesIO(bytes(data)), fc.reader_config()))
+    b = absdoc.fingerprint(reader.to_model(io.BytesIO(one), fc.reader_config()))
+  except Exception:  # pylint: disable=broad-except
+    return []       # crashes are reported by check_file
+  ctx.count("cmp:split-equivalence", n)
+  if a != b:
+    part = "regions" if a[2] != b[2] else "content" if a[3] != b[3] else "parameters"
+    return [("split-differs:" + part, f"the document differs ({part}) when the {n} subtitle(s) sent over extension blocks are sent in one block each")]
+  return []
+
+
 def evaluate(ctx, data, cfg, source):
   ctx.ev()
   ctx.count("files")
   fc, viol = check_file(ctx, data, cfg, source)
+  if source.startswith("gen:") and not any(m.startswith("crash:") for m, _ in viol):
+    viol = list(viol) + split_equivalence(ctx, fc, data, cfg, source)
   nontrivial = _features(ctx, fc, cfg)
   if nontrivial:
     ctx.nontriv(hashlib.blake2b(data + repr(sorted(cfg.items())).encode(), digest_size=8).digest().hex())
